@@ -147,3 +147,30 @@ package throttle
 //@   callee rebuild(cur, t) (r)
 //@     requires nnow == 1 && cur.wall == gw && cur.ext == ge
 //@     requires t.wall == ts.wall && t.ext == ts.ext
+
+// ---------------------------------------------------------------------------
+// C16 ("keys never share a budget", and no key gets two budgets): the limiter of a
+// (rule, key) pair is created once.  getOrAdd stores a new limiter into the shared
+// map only under the write lock and only after a lookup made under that same lock
+// found nothing - a limiter inserted by another processor between RUnlock and Lock
+// must not be overwritten (its counters would start from zero again).
+
+//@ func (*limitersMap).getOrAdd
+//@   ghost wl bool = false
+//@   ghost wabsent bool = false
+//@   requires rule != nil
+//@   callee Lock()
+//@     set wl := true
+//@   callee maplookup:lims(k) (v, ok)
+//@     set wabsent := wl && !ok
+//@   callee mapupdate:lims(k, v)
+//@     requires wl && wabsent
+//@   callee newLimiter(k, o, r) (lim)
+//@     requires wl && wabsent
+//@     pure
+//@   callee newLimiterWithGen(lim, gen) (r)
+//@     pure
+//@   callee Store(v)
+//@     pure
+//@   callee getLimitCfg() (c)
+//@     pure
